@@ -73,6 +73,18 @@ CLAIMED = {
         text="44 snippet variants over 14 rule classes (operand/argument type, arity of user functions and builtins, unknown and out-of-scope names, use before declaration, assignment to immutable variable/parameter, missing return, return type, non-bool condition, let/set type, unknown field/variant, consumed resource, extern outside unsafe) x 6 placements (top/end of main, nested block, loop body, other function, shadow body), exhaustively on a minimal base program and sampled on generated base programs; nanoc -o, nano_virt --run, --emit-nvm, -o are all required to refuse without leaving an artifact or executing the sentinel-printing main/shadow blocks.",
         note="Variants/placements that are recorded findings are excluded by construction and counted (ledger c05_variants / c05_placements). nanoc does not echo shadow-block output without --verbose, so 'executed nothing' is observable for nanoc only through the artifact and exit status.",
         design="3/C05"),
+    "C06": dict(
+        category="exploration",
+        technique="Hypothesis-generated template programs whose shadow assertions have truth values constructed by the generator (reference truth table), oracle on nanoc's exit status, 'Shadow test ... FAILED' lines, existence of the executable and missing-shadow reports",
+        text="1-12 functions, 1-5 assertions each with generator-computed truth (calls of linear helpers, literals, and/not forms), each placed plainly or inside if-true / if-false / else / while (0,1,3 iterations) / for (0,2 iterations) / a callee invoked by the shadow block; functions without shadow blocks mixed in. A false assertion counts only when executed. The biconditional is checked in both directions, every failing test must be named, every shadow-less function reported, and the all-true executable must run.",
+        note="Fresh output path per case. Shadow blocks of imported modules are not exercised (nanoc does not run them; DESIGN.md 3/C06).",
+        design="3/C06"),
+    "C03": dict(
+        category="exploration",
+        technique="differential oracle between nanoc's compile-time evaluator (shadow output from --verbose) and the native binary running the same calls, on Hypothesis-generated programs with generated argument tuples; assertion truth from the reference evaluator",
+        text="For every generated function with scalar parameters the shadow block prints and asserts call results for 1-3 literal argument tuples; the compiled twin program performs the same calls in main. The text printed between 'Testing f...' and PASSED/FAILED must equal the binary's output slice, PASSED/FAILED must match the constructed truth of the assertions (about 1 in 7 falsified), all-true programs must not be refused and programs with a false assertion must be.",
+        note="Functions with array/struct parameters are only reached as callees. Open evaluator findings gate their trigger shapes for C03/C06 only (ledger gate_for).",
+        design="3/C03"),
 }
 
 NOT_YET = {
